@@ -28,6 +28,7 @@ import (
 	"strconv"
 	"strings"
 	"sync"
+	"sync/atomic"
 	"time"
 
 	ht "github.com/ogen-go/ogen/http"
@@ -42,6 +43,7 @@ type typedPkg struct {
 	Webhooks map[string]string // webhook operation -> webhook name
 	WithURL  any               // func(context.Context, *url.URL) context.Context: the per-call override of the server URL, if any
 	Label    any               // func(ctx, key, val string, pause func()) string: adds a label through the package's Labeler, returns what it holds
+	ReqOpts  []any             // the per-call request options of the package (client, server URL, edit request, edit response), or nil
 }
 
 // typedLabel is the Label function of the package the running scenario uses (nil: the package has no Labeler).
@@ -70,6 +72,70 @@ type typedClients struct {
 	overrideText string
 	withURL      func(context.Context, *url.URL) context.Context
 	literals     []string // the literal segments of the package's path templates
+	// reqOpts: the package's per-call request options (WithRequestClient, WithServerURL, WithEditRequest,
+	// WithEditResponse), used by the calls of a scenario that overrides; hc is the client they were built around
+	reqOpts []reflect.Value
+	hc      ht.Client
+}
+
+// ownClient is the HTTP client one call brings along (WithRequestClient): it must carry that call and no other.
+type ownClient struct {
+	next ht.Client
+	ci   *callInfo
+	tr   *TypedRec
+}
+
+func (o *ownClient) Do(req *http.Request) (*http.Response, error) {
+	o.tr.optOwnDo.Add(1)
+	if infoFrom(req.Context()) != o.ci {
+		o.tr.optForeign.Add(1)
+	}
+	o.ci.St.MaybeYield()
+	return o.next.Do(req)
+}
+
+// callOptions: the per-call options of one call, chosen by its value seed. Every hook checks that what it is shown
+// belongs to the call that brought it, and counts.
+func callOptions(cls *typedClients, ci *callInfo, tr *TypedRec, v uint64, webhook bool) []reflect.Value {
+	if len(cls.reqOpts) != 4 || ci == nil {
+		return nil
+	}
+	var out []reflect.Value
+	sel := (v >> 3) & 15
+	tr.OptSel = int(sel) + 16
+	if sel&1 != 0 {
+		tr.optHasClient = true
+		out = append(out, cls.reqOpts[0].Call([]reflect.Value{reflect.ValueOf(ht.Client(&ownClient{next: cls.hc, ci: ci, tr: tr})).Convert(cls.reqOpts[0].Type().In(0))})[0])
+	}
+	if sel&2 != 0 && !webhook && cls.override != nil {
+		out = append(out, cls.reqOpts[1].Call([]reflect.Value{reflect.ValueOf(cls.override)})[0])
+	}
+	if sel&4 != 0 {
+		tr.optHasEditReq = true
+		out = append(out, cls.reqOpts[2].Call([]reflect.Value{reflect.ValueOf(func(req *http.Request) error {
+			tr.optEditReq.Add(1)
+			if tr.optOwnDo.Load() != 0 {
+				tr.optLate.Add(1)
+			}
+			if infoFrom(req.Context()) != ci {
+				tr.optForeign.Add(1)
+			}
+			ci.St.MaybeYield()
+			return nil
+		})})[0])
+	}
+	if sel&8 != 0 {
+		tr.optHasEditResp = true
+		out = append(out, cls.reqOpts[3].Call([]reflect.Value{reflect.ValueOf(func(resp *http.Response) error {
+			tr.optEditResp.Add(1)
+			if resp == nil || resp.Request == nil || infoFrom(resp.Request.Context()) != ci {
+				tr.optForeign.Add(1)
+			}
+			ci.St.MaybeYield()
+			return nil
+		})})[0])
+	}
+	return out
 }
 
 // ---------------------------------------------------------------- trees
@@ -738,6 +804,9 @@ const alnum = "abcdefghijklmnopqrstuvwxyz0123456789"
 
 var edgeTexts = []string{"a b", "x+y", "p%q", "u/v", "k=v", "q?r#s&t", "é✓ü", "100%", "a  b", "%41", "+", "~_-", "a,b", "a;b", "a.b", "a|b", "x,", ";id=y", "\"q\"", "a\\b", "{j}", "[l]", "<t>", "a:b", "a'b", "日本", "a\tb", ""}
 
+// bracketKeys: member names with brackets, for the maps of parameter objects.
+var bracketKeys = []string{"a[0]", "k]", "x[y][z]", "[l]", "a]b[c", "[", "]]"}
+
 func (g *vgen) text() string {
 	if g.edgeText && !g.params && g.r.intn(3) == 0 {
 		return edgeTexts[g.r.intn(len(edgeTexts))]
@@ -986,7 +1055,13 @@ func (g *vgen) value(t reflect.Type, depth int, hint string) reflect.Value {
 		n := g.r.intn(4)
 		m := reflect.MakeMapWithSize(t, n)
 		for i := 0; i < n; i++ {
-			m.SetMapIndex(g.value(t.Key(), depth+1, "key"), g.value(t.Elem(), depth+1, hint))
+			k := g.value(t.Key(), depth+1, "key")
+			if g.params && g.edgeText && k.Kind() == reflect.String && g.r.intn(3) == 0 {
+				// a member name of a parameter object that contains the brackets its style (deepObject) writes
+				// around member names: delivered whole, or refused - never dropped
+				k.SetString(bracketKeys[g.r.intn(len(bracketKeys))])
+			}
+			m.SetMapIndex(k, g.value(t.Elem(), depth+1, hint))
 		}
 		return m
 	case reflect.String:
@@ -1191,9 +1266,14 @@ type TypedRec struct {
 	ReqExact  bool         `json:"req_exact"`  // some delivery reached the handler and every delivery that did received exactly what was supplied
 	RespExact bool         `json:"resp_exact"` // the caller got exactly what the answering handler returned
 
+	OptSel    int          `json:"opt_sel,omitempty"`  // 16 + the per-call request options the call brought (bit 0 client, 1 server URL, 2 edit request, 3 edit response)
+
 	sent  []*Node
 	sides [3]*TypedSide
 	got   *Node
+
+	optHasClient, optHasEditReq, optHasEditResp          bool
+	optOwnDo, optEditReq, optEditResp, optForeign, optLate atomic.Int32
 }
 
 var defaultsSeen = map[string]string{} // package + type.member -> default observed; used between runs only (seal)
@@ -1506,8 +1586,12 @@ func doTyped(ctx context.Context, cls *typedClients, impls map[string][]reflect.
 			tr.SentSum2 = true
 		}
 	}
+	if mt.IsVariadic() && cls.override != nil {
+		in = append(in, callOptions(cls, infoFrom(ctx), tr, c.V, first == 2)...)
+	}
 	out := m.Call(in)
 	rec.Returned = true
+	optionsRule(tr, out[len(out)-1].IsNil())
 	if e := out[len(out)-1]; !e.IsNil() {
 		err := e.Interface().(error)
 		rec.ClientErr = firstLine(err.Error())
@@ -1528,6 +1612,46 @@ func doTyped(ctx context.Context, cls *typedClients, impls map[string][]reflect.
 		}
 	} else {
 		tr.GotValue = true
+	}
+}
+
+// optionsRule: per-call request options act on the call that brought them, once, in order (edit request, send, edit
+// response), and on no other call.
+func optionsRule(tr *TypedRec, succeeded bool) {
+	if tr.OptSel == 0 {
+		return
+	}
+	add := func(s string) {
+		if len(tr.Problems) < 8 {
+			tr.Problems = append(tr.Problems, s)
+		}
+	}
+	do, eq, er := tr.optOwnDo.Load(), tr.optEditReq.Load(), tr.optEditResp.Load()
+	if n := tr.optForeign.Load(); n != 0 {
+		add(fmt.Sprintf("options/a per-call request option was applied to another call's request or response: %d times", n))
+	}
+	if do > 1 || eq > 1 || er > 1 {
+		add(fmt.Sprintf("options/a per-call request option was applied more than once: edit request %d, own client %d, edit response %d", eq, do, er))
+	}
+	if tr.optLate.Load() != 0 {
+		add("options/the request was edited after it had been sent: edit request ran after the call's own client")
+	}
+	if tr.optHasClient && tr.optHasEditReq && do > 0 && eq == 0 {
+		add("options/the request was sent without the call's edit: own client used, edit request never ran")
+	}
+	if tr.optHasClient && tr.optHasEditResp && er > 0 && do == 0 {
+		add("options/a response was edited that the call's own client never fetched: edit response ran, own client unused")
+	}
+	if succeeded {
+		if tr.optHasClient && do != 1 {
+			add(fmt.Sprintf("options/the call succeeded without its own client: used %d times", do))
+		}
+		if tr.optHasEditReq && eq != 1 {
+			add(fmt.Sprintf("options/the call succeeded without its request edit: ran %d times", eq))
+		}
+		if tr.optHasEditResp && er != 1 {
+			add(fmt.Sprintf("options/the call succeeded without its response edit: ran %d times", er))
+		}
 	}
 }
 
